@@ -158,7 +158,7 @@ TCancelled ==
 
 Silent ==
   /\ l <= Len(T)
-  /\ \E c \in Callers : Acquire(c) \/ BodyStart(c) \/ TasksGone(c) \/ FileGone(c) \/ ListenerDone(c) \/ CancelInListener(c)
+  /\ \E c \in Callers : Acquire(c) \/ BodyStart(c) \/ TasksGone(c) \/ FileGone(c) \/ FileFail(c) \/ ListenerDone(c) \/ CancelInListener(c)
   /\ UNCHANGED <<tid, l, reported, prevSnap>>
 
 Done ==
